@@ -152,17 +152,26 @@ func exhaustivePlans(tier string) []exPlan {
 			out = append(out, exPlan{label + "/k=" + itoa(k), mk, k})
 		}
 	}
-	rbK, avlK, btK := []int{5, 6, 7}, []int{5, 6, 7}, []int{6, 7, 8}
+	rbK, avlK, btK := []int{5, 6, 7, 8}, []int{5, 6, 7, 8}, []int{6, 7, 8, 9}
+	orders := []int{3, 4, 5, 6}
 	if tier == "thorough" {
-		rbK, avlK, btK = []int{5, 6, 7, 8, 9}, []int{5, 6, 7, 8, 9}, []int{6, 7, 8, 9, 10, 11}
+		rbK, avlK, btK = []int{5, 6, 7, 8, 9, 10}, []int{5, 6, 7, 8, 9, 10}, []int{6, 7, 8, 9, 10, 11}
+		orders = []int{3, 4, 5, 6, 7, 8}
 	}
 	add("RedBlackTree", func() *KV[int, int] { return newRBT[int, int](nat) }, rbK...)
 	add("RedBlackTree(reversed)", func() *KV[int, int] { return newRBT[int, int](rev) }, 6)
 	add("AVLTree", func() *KV[int, int] { return newAVL[int, int](nat) }, avlK...)
 	add("AVLTree(reversed)", func() *KV[int, int] { return newAVL[int, int](rev) }, 6)
-	for _, order := range []int{3, 4, 5, 6} {
+	for _, order := range orders {
 		order := order
 		add("BTree(order "+itoa(order)+")", func() *KV[int, int] { return newBTree[int, int](order, nat) }, btK...)
 	}
 	return out
+}
+
+// exhaustiveFloors: every planned universe must have been explored to closure.
+func exhaustiveFloors(tier string, f *floorCheck) {
+	for _, p := range exhaustivePlans(tier) {
+		f.atLeast("exhaustive:"+p.label+":closed", 1)
+	}
 }
